@@ -15,6 +15,8 @@ ASSUMPTIONS = [
     "the independent content reading c16_sem (ISO 32000-1 7.2-7.3, 7.8.2, 8.9.7) is the meaning of 'what a page draws' as far as token spelling is concerned; operators are not interpreted",
     "inline image data end at the first EI preceded by white space and followed by white space, a delimiter or the end of the stream (the property's wording)",
     "Flate-compressed outputs are inflated with Python's zlib (the system library qpdf links)",
+    "the /Contents entry of a page means what ISO 32000-1 Table 30 says (c16_spec_page): a stream, or an array of streams read as their concatenation in order, an object listed k times contributing k times; a value of any other shape has no reading, and qpdf may then warn, refuse (exception / exit 2) or leave the page alone",
+    "the documents of the part 'pagelists' are written by the driver as classic PDF files and read back with processMemoryFile, so that every object is what qpdf's parser makes of a file",
 ]
 
 WS = [b"\x00", b"\t", b"\n", b"\x0c", b"\r", b" "]
@@ -573,7 +575,7 @@ def part_pagelists(chk, drv, runner):
         sobjs = {4 + i: "s" + (hexs(b) if b else "-") for i, b in enumerate(pool)}
         for pages, extra in shapes:
             docs.append((pages, {**sobjs, **PL_FIXED_OBJS, **extra}, "aimed"))
-    nrand = 250 if chk.tier == "quick" else 40000
+    nrand = 250 if chk.tier == "quick" else 20000
     for _ in range(nrand):
         nk = rng.randint(1, 4)
         pool = [rng.choice(PL_FRAGMENTS + PL_BROKEN) if rng.random() < 0.7 else gen_soup(rng, rng.randint(1, 2), images=False)[0] for _ in range(nk)]
@@ -795,7 +797,12 @@ def run(chk):
                        "and before EI, EI look-alikes, every delimiter after EI), grammar-derived token soup, damaged content (nine kinds); non-trivial = the normaliser "
                        "changes the bytes, distinct by input. streams: six base contents split at every byte position + random 2..4-way splits through "
                        "pipePageContents / coalesceContentStreams / filterPageContents; non-trivial = more than one stream, distinct by stream list. "
-                       "cli: see parts.cli")
+                       "pagelists: every /Contents shape (direct / indirect / shared array with adjacent and non-adjacent repeated entries, one stream on several "
+                       "pages, one-element and empty arrays, single stream, absent, null, non-array values, elements that are null / numbers / dictionaries / "
+                       "nested arrays / references to such objects or to nothing) x stream pools + random arrays drawn with replacement, through getPageContents, "
+                       "pipePageContents, coalesceContentStreams, filterPageContents, addContentTokenFilter, parsePageContents, addPageContents(first/last), "
+                       "externalizeInlineImages(0/3) on files read back by qpdf; non-trivial = a repeated entry, a non-stream element or more than one page, "
+                       "distinct by document. cli: see parts.cli")
     import time
     t0 = time.time()
     phases = chk.cov.setdefault("phase_seconds", {})
